@@ -79,6 +79,13 @@ func runC04(h *Harness) {
 		extra = Pick(tp, 2, 30, 200)
 	}
 	backend := []string{"memory", "disk"}[h.Idx%2]
+	if signer == "ca-no-crlsign" && path == "refresh" {
+		// an issuer that may not sign CRLs cannot have a first version accepted either: the cell does not exist
+		h.Probe("cell-not-applicable")
+		sc["skipped"] = "no acceptable first version exists for an issuer without cRLSign"
+		h.R.Sample = map[string]any{"skipped": true}
+		return
+	}
 	w := NewWorld(h, WorldOpts{RSA: rsaWorld, Intermediate: h.Idx%3 == 0})
 	issuer := w.A
 	if signer == "ca-no-crlsign" {
